@@ -12,6 +12,7 @@ InvNorm == NormIdempotent(t)
 InvQuoteExact == QuoteExact(t)
 InvQuoteNote == QuoteNote(t)
 InvNoteOption == NoteOptionExact(t)
+InvSqlNeutral == SqlLiteralNeutral(t)
 \* negative control: the escaping as it was before the repair does NOT lex back
 InvOldQuote == ~MultiLine(t) => Lex("single", OldQuote(t)) = Good(t)
 Emit == PrintT(<<"T", t, Write("single", t), Write("double", t), Write("triple", t),
